@@ -237,7 +237,7 @@ class Reject(Exception):
     pass
 
 
-def layers_of(tree, sc):
+def layers_of(tree, sc, cfg_first=True):
     """Ordered (low -> high priority) list of (kind, origin path, dict relative to origin)."""
     by_src = {}
     for s, a in sc:
@@ -250,14 +250,16 @@ def layers_of(tree, sc):
         out.append(("E", (), build_dict(tree, "E", by_src["E"], ())))
     if "B" in by_src:
         out.append(("B", (), build_dict(tree, "B", by_src["B"], ())))
-    # command line in textual order: at each level --cfg first, then the option, then the subcommand name
+    # command line in textual order: at each level --cfg and the option (in the rendered order), then the subcommand name
     cur = ()
     while True:
         s = "C" if cur == () else "Cs:" + ".".join(cur)
+        items = []
         if s in by_src:
-            out.append((src_kind(s), cur, build_dict(tree, s, by_src[s], cur)))
+            items.append((src_kind(s), cur, build_dict(tree, s, by_src[s], cur)))
         if ("s", cur) in by_src.get("A", []):
-            out.append(("A", cur, build_dict(tree, "A", [("s", cur)], cur)))
+            items.append(("A", cur, build_dict(tree, "A", [("s", cur)], cur)))
+        out += items if cfg_first else items[::-1]
         nxt = chain.get(cur)
         if nxt is None or cur + (nxt,) not in tree.by_path:
             break
@@ -273,8 +275,8 @@ def descend(d, path):
     return d if isinstance(d, dict) else None
 
 
-def model(tree, sc, mode, defaults, env_counts):
-    layers, chain = layers_of(tree, sc)
+def model(tree, sc, mode, defaults, env_counts, cfg_first=True):
+    layers, chain = layers_of(tree, sc, cfg_first)
 
     def rec(node):
         path = node.path
@@ -324,6 +326,81 @@ def model(tree, sc, mode, defaults, env_counts):
         return ("ok", rec(tree.root))
     except Reject as ex:
         return ("reject", str(ex))
+
+
+def admissible(tree, sc, mode, defaults, cfg_first, res):
+    """The order-free reading of the statement: True iff the outcome is compatible with the statement when nothing is
+    assumed about *which* of several config / environment / default-config sources wins: without a command-line name any
+    subcommand named by some source may be chosen; an option given by several sources may hold any of the given values.
+    (A value given by exactly one source must still arrive, no foreign section may survive, and so on.)"""
+    layers, chain = layers_of(tree, sc, cfg_first)
+
+    def here(node):
+        out = []
+        for kind, origin, d in layers:
+            if node.path[: len(origin)] != origin:
+                continue
+            sub = descend(d, node.path[len(origin):])
+            if sub:
+                out.append((kind, sub))
+        return out
+
+    def choices(node, hs):
+        if chain.get(node.path) is not None:
+            return {chain[node.path]}
+        names = {sub[DEST] for kind, sub in hs if sub.get(DEST) is not None}
+        if names:
+            return names
+        out = set()
+        for env_counts in (False, True):
+            pick = None
+            for c in node.children:
+                if any(isinstance(sub.get(c.name), dict) and sub[c.name] for kind, sub in hs if env_counts or kind != "E"):
+                    pick = c.name
+                    break
+            out.add(pick)
+        return out
+
+    def may_reject(node):
+        if not node.children:
+            return False
+        for ch in choices(node, here(node)):
+            if ch is None:
+                if required_at(mode, len(node.path)):
+                    return True
+            elif node.child(ch) is None or may_reject(node.child(ch)):
+                return True
+        return False
+
+    def ok(node, got):
+        hs = here(node)
+        for o, dflt in ((node.opt, default_of(node)), (node.opt2, default_of(node, True))):
+            vals = {sub[o] for kind, sub in hs if o in sub}
+            if vals:
+                if got.get(o) not in vals:
+                    return False
+            elif defaults:
+                if got.get(o) != dflt:
+                    return False
+            elif o in got:
+                return False
+        if not node.children:
+            return set(got) <= {node.opt, node.opt2}
+        ch = got.get(DEST)
+        cands = choices(node, hs)
+        if ch is None:
+            return None in cands and not required_at(mode, len(node.path)) and set(got) <= {node.opt, node.opt2, DEST}
+        if ch not in cands or node.child(ch) is None or not set(got) <= {node.opt, node.opt2, DEST, ch}:
+            return False
+        sub = got.get(ch, {})
+        return isinstance(sub, dict) and ok(node.child(ch), sub)
+
+    if res[0] != "ok":
+        return may_reject(tree.root)
+    got = res[1]
+    if not isinstance(got, dict):
+        return False
+    return ok(tree.root, got if defaults else drop_empty(got))
 
 
 # --------------------------------------------------------------------------------------------- real parsers
@@ -459,12 +536,70 @@ def diff(tree, want, got):
     return rec(tree.root, want, got, ())
 
 
+def chain_in(tree, d):
+    """The chain of chosen subcommand names in a (model or real) result dict."""
+    chain, node = (), tree.root
+    while isinstance(d, dict) and node is not None and node.children and isinstance(d.get(DEST), str):
+        ch = d[DEST]
+        chain += (ch,)
+        node, d = node.child(ch), d.get(ch)
+    return chain
+
+
+def mechanism_of(sc, chain, cls, detail):
+    """Coarse name of the defect mechanism shown by a minimal scenario, used to group witnesses: the set of
+    <source kind><s|n>['!' when the atom is off the chain the model selects].  Atoms that merely establish the context are left
+    out: command-line / config atoms on the chain above the place of the mismatch; for rejections everything but the
+    default-config atoms (+ 'E' when the environment is on).  The witness part of the key names the exact input."""
+    base = cls[6:] if cls.startswith("order-") else cls
+    where = None
+    if base == "wrong-value":
+        where = len(detail.split("=")[0].split(".")) - 1
+    elif base == "wrong-choice":
+        where = len([p for p in detail.split(">")[0].split(".") if p]) + 1
+    elif base == "extra-section":
+        where = len(detail.split("."))
+    parts = set()
+    for s, a in sc:
+        k = src_kind(s)
+        target = a[1] if a[0] == "s" else a[1] + (a[2],)
+        on = chain[: len(target)] == target
+        if base == "rejected" and k not in ("D", "Dc"):
+            if k == "E":
+                parts.add("E")
+            elif detail not in ("dcf-needs-subcommand", "nested-key"):
+                parts.add("%s%s%s" % (k, a[0], "" if on else "!"))
+            continue
+        if where is not None and on and k in ("A", "B", "C", "Cs") and len(target) < where:
+            continue
+        parts.add("%s%s%s" % (k, a[0], "" if on else "!"))
+    return "+".join(sorted(parts)) or "-"
+
+
+def failure_category(res):
+    """Short, input-independent name of a failure (used in keys only, never in the verdict)."""
+    if res[0] == "exit":
+        return "exit%s" % res[1]
+    name, msg = res[1], res[2]
+    if name != "ArgumentError":
+        return name
+    if "Problem in default config file" in msg and "to be one of" in msg:
+        return "dcf-needs-subcommand"
+    if "does not accept nested key" in msg:
+        return "nested-key"
+    if "to be one of" in msg:
+        return "not-provided"
+    return "ArgumentError-" + "-".join(msg.replace('"', "").replace("'", "").split()[:3])[:30]
+
+
 class Runner:
-    """Runs scenarios on real parsers (one per worker process / chunk) and judges them against the model."""
+    """Runs scenarios on real parsers (one set per worker process) and judges them against the model."""
 
     def __init__(self, tmp):
         self.tmp = tmp
         self.parsers = {}
+        self.cache = {}
+        self.confirmed = {}
         self.n_dirs = 0
 
     def parser(self, tree, mode, with_dcf, fresh=False):
@@ -530,17 +665,23 @@ class Runner:
             res = ("ok", strip(tree, val.as_dict()) if isinstance(val, Namespace) else val)
         return res, case
 
-    def judge(self, tree, sc, mode, defaults, res):
-        """-> (ok, class, detail, expected); either reading of env-only settings is accepted."""
+    def judge(self, tree, sc, mode, defaults, cfg_first, res):
+        """-> (ok, class, detail, expected).  The reference is the model with the documented override order; either reading
+        of env-only settings is accepted.  A mismatch that is still compatible with the order-free reading of the statement
+        (see `admissible`) gets the class prefix 'order-'."""
         verdicts = []
+        has_unknown = any(a[0] == "n" and a[2] == UNKNOWN for _, a in sc)
         for env_counts in (False, True):
-            exp = model(tree, sc, mode, defaults, env_counts)
+            exp = model(tree, sc, mode, defaults, env_counts, cfg_first)
+            if res[0] != "ok" and has_unknown:
+                # a config / command line naming an undeclared subcommand may be refused whatever else is given
+                return True, "", "", exp
             if exp[0] == "reject":
                 if res[0] != "ok":
                     return True, "", "", exp
                 verdicts.append(("accepted", exp[1].split(" at ")[0].split(" '")[0].replace(" ", "-")[:40], exp))
             elif res[0] != "ok":
-                verdicts.append(("rejected", str(res[1]), exp))
+                verdicts.append(("rejected", failure_category(res), exp))
             else:
                 got = res[1]
                 if not isinstance(got, dict):
@@ -553,78 +694,115 @@ class Runner:
                 if df is None:
                     return True, "", "", exp
                 verdicts.append((df[0], df[1], exp))
-        return (False,) + verdicts[0]
+        cls, detail, exp = verdicts[0]
+        if admissible(tree, sc, mode, defaults, cfg_first, res):
+            cls = "order-" + cls
+        return False, cls, detail, exp
 
-    def violates(self, tree, sc, mode, channel, defaults, cfg_first, cls):
-        """Same class of violation on a freshly built parser?  -> (bool, res, case, detail, exp)"""
-        res, case = self.call(tree, sc, mode, channel, defaults, cfg_first, fresh=True)
-        ok, c, detail, exp = self.judge(tree, sc, mode, defaults, res)
-        return (not ok and (cls is None or c == cls)), res, case, detail, exp, c
+    def verdict(self, tree, sc, mode, channel, defaults, cfg_first, fresh=False):
+        """-> dict(ok, cls, detail, exp, res, case); cached for the reused parsers."""
+        key = (tree.tid, tuple(sc), mode, channel, defaults, cfg_first)
+        if not fresh and key in self.cache:
+            return self.cache[key]
+        res, case = self.call(tree, sc, mode, channel, defaults, cfg_first, fresh)
+        ok, cls, detail, exp = self.judge(tree, sc, mode, defaults, cfg_first, res)
+        v = {"ok": ok, "cls": cls, "detail": detail, "exp": exp, "res": res, "case": case}
+        if not fresh:
+            self.cache[key] = v
+        return v
+
+    def shrink(self, tree, sc, mode, channel, defaults, cfg_first, cls):
+        """Greedy removal of atoms while some channel still shows the same class of violation."""
+        cur, cur_channel = tuple(sc), channel
+        changed = True
+        while changed:
+            changed = False
+            for i in range(len(cur)):
+                cand = cur[:i] + cur[i + 1:]
+                if not valid(tree, cand):
+                    continue
+                chans = channels(cand)
+                for c in ([cur_channel] if cur_channel in chans else []) + [c for c in chans if c != cur_channel]:
+                    v = self.verdict(tree, cand, mode, c, defaults, cfg_first)
+                    if not v["ok"] and v["cls"] == cls:
+                        cur, cur_channel, changed = cand, c, True
+                        break
+                if changed:
+                    break
+        return cur, cur_channel
 
     def run(self, tree, sc, mode, defaults=True, cfg_first=True):
         """One scenario on every channel it applies to -> list of result records (one contract evaluation each)."""
         out = []
         s = sig(tree, sc)
+        flags = ("" if defaults else ":d0") + ("" if cfg_first else ":oc")
         for channel in channels(sc):
-            res, case = self.call(tree, sc, mode, channel, defaults, cfg_first)
-            ok, cls, detail, exp = self.judge(tree, sc, mode, defaults, res)
-            rec = {"ok": ok, "orig": "%s:%s:%s%s%s:%s" % (tree.tid, mode, channel, "" if defaults else ":d0", "" if cfg_first else ":oc", s),
+            v = self.verdict(tree, sc, mode, channel, defaults, cfg_first)
+            res = v["res"]
+            rec = {"ok": v["ok"], "orig": "%s:%s:%s%s:%s" % (tree.tid, mode, channel, flags, s),
                    "res": res[0], "fail": res[1] if res[0] == "exc" else ("exit" if res[0] == "exit" else None),
-                   "ambiguous": model(tree, sc, mode, defaults, False) != model(tree, sc, mode, defaults, True),
+                   "ambiguous": model(tree, sc, mode, defaults, False, cfg_first) != model(tree, sc, mode, defaults, True, cfg_first),
                    "nontrivial": bool(sc), "stale": False}
-            if not ok:
-                # confirm on a freshly built parser so that the reproducer is stand-alone (history effects belong to C09)
-                bad, res, case, detail, exp, cls = self.violates(tree, sc, mode, channel, defaults, cfg_first, None)
-                if not bad:
-                    rec.update(ok=True, stale=True)
+            if not v["ok"]:
+                # shrink to a minimal scenario with the same class of violation (the canonical key names the minimal one) and
+                # confirm it on a freshly built parser, so that the reproducer is stand-alone (history effects belong to C09)
+                cls = v["cls"]
+                cur, cur_channel = self.shrink(tree, sc, mode, channel, defaults, cfg_first, cls)
+                ck = (tree.tid, cur, mode, cur_channel, defaults, cfg_first, cls)
+                if ck not in self.confirmed:
+                    vm = self.verdict(tree, cur, mode, cur_channel, defaults, cfg_first, fresh=True)
+                    self.confirmed[ck] = vm if (not vm["ok"] and vm["cls"] == cls) else None
+                vm = self.confirmed[ck]
+                if vm is None:
+                    cur, cur_channel = tuple(sc), channel
+                    vm = self.verdict(tree, sc, mode, channel, defaults, cfg_first, fresh=True)
+                    if vm["ok"]:
+                        rec.update(ok=True, stale=True)
+                    cls = vm["cls"]
             if not rec["ok"]:
-                # shrink to a minimal scenario with the same class of violation: the canonical key names the minimal one
-                cur = tuple(sc)
-                changed = True
-                while changed:
-                    changed = False
-                    for i in range(len(cur)):
-                        cand = cur[:i] + cur[i + 1:]
-                        if not valid(tree, cand) or channel not in channels(cand):
-                            continue
-                        if not defaults and {src_kind(x) for x, _ in cand} & {"D", "Dc"}:
-                            continue
-                        bad, r2, c2, d2, e2, _ = self.violates(tree, cand, mode, channel, defaults, cfg_first, cls)
-                        if bad:
-                            cur, res, case, detail, exp, changed = cand, r2, c2, d2, e2, True
-                            break
                 depth = tree.depth
-                modes = [m for m in dict.fromkeys(["R" * depth, "O" * depth, mode])
-                         if m == mode or self.violates(tree, cur, m, channel, defaults, cfg_first, cls)[0]]
-                chans = [c for c in channels(cur)
-                         if c == channel or self.violates(tree, cur, mode, c, defaults, cfg_first, cls)[0]]
+
+                def bad(m, c):
+                    x = self.verdict(tree, cur, m, c, defaults, cfg_first)
+                    return not x["ok"] and x["cls"] == cls
+
+                modes = [m for m in dict.fromkeys(["R" * depth, "O" * depth, mode]) if m == mode or bad(m, cur_channel)]
+                chans = [c for c in channels(cur) if c == cur_channel or bad(mode, c)]
                 mode_label = "*" if {"R" * depth, "O" * depth} <= set(modes) else mode
-                key = "c17:%s:%s:%s:%s%s%s:%s:%s" % (cls, tree.tid, mode_label, "+".join(chans), "" if defaults else ":d0",
-                                                 "" if cfg_first else ":oc", sig(tree, cur), detail)
+                exp, res = vm["exp"], vm["res"]
+                chain = chain_in(tree, exp[1]) if exp[0] == "ok" else (chain_in(tree, res[1]) if res[0] == "ok" else ())
+                shape = mechanism_of(cur, chain, cls, vm["detail"]) + ("~" + vm["detail"] if cls.endswith("rejected") else "")
+                witness = "%s:%s:%s%s:%s:%s" % (tree.tid, mode_label, "+".join(chans), flags, sig(tree, cur), vm["detail"])
+                case = dict(vm["case"])
                 case.update(expected=exp[1], got=res[1] if res[0] == "ok" else list(res), found_from=rec["orig"], minimal_scenario=sig(tree, cur))
-                rec.update(key=key, what="result differs from the reference selection model: %s %s" % (cls, detail), case=case)
+                rec.update(cls=cls, shape=shape, witness=witness, case=case,
+                           what="result differs from the reference selection model: %s %s" % (cls, vm["detail"]))
             elif len(sc) >= 3 and res[0] == "ok":
+                case = v["case"]
                 rec["sample"] = {"scenario": rec["orig"], "call": case["call"], "env": case["env"], "dcf": case["default_config_files"], "result": res[1]}
             out.append(rec)
         return out
 
 
-_TREES = None
+_STATE = {}
 
 
-def work(chunk):
+def work(job):
     """Pool worker: run a chunk of tasks (tree id, scenario, mode, defaults, cfg_first)."""
-    global _TREES
-    if _TREES is None:
-        _TREES = trees()
+    tmp, chunk = job
+    if "runner" not in _STATE:
+        d = os.path.join(tmp, "w%d" % os.getpid())
+        os.makedirs(d, exist_ok=True)
+        _STATE["runner"] = Runner(d)
+        _STATE["trees"] = trees()
+    r, T = _STATE["runner"], _STATE["trees"]
     out = []
-    saved_cwd = os.getcwd()
-    with tempfile.TemporaryDirectory() as tmp, warnings.catch_warnings():
+    with warnings.catch_warnings():
         warnings.simplefilter("ignore")
-        r = Runner(tmp)
         for tid, sc, mode, defaults, cfg_first in chunk:
-            out.extend(r.run(_TREES[tid], sc, mode, defaults, cfg_first))
-    os.chdir(saved_cwd)
+            out.extend(r.run(T[tid], sc, mode, defaults, cfg_first))
+    if len(r.cache) > 20000:
+        r.cache.clear()
     return out
 
 
@@ -699,11 +877,14 @@ def tasks_for(thorough, rng):
     counter = [0]
 
     def add(tid, sc, modes, defaults=True, cfg_first=True, all_modes=False):
-        """Run in every mode when the model's answer depends on required/optional, else in one mode (round robin)."""
-        if all_modes or mode_sensitive(T[tid], sc, defaults):
+        """modes = [all required, all optional, mixed...].  Every mode when asked; all-required + all-optional + one mixed
+        when the model's answer depends on required/optional; else one mode (round robin)."""
+        counter[0] += 1
+        if all_modes:
             chosen = modes
+        elif mode_sensitive(T[tid], sc, defaults):
+            chosen = modes[:2] + ([modes[2 + counter[0] % (len(modes) - 2)]] if len(modes) > 2 else [])
         else:
-            counter[0] += 1
             chosen = [modes[counter[0] % len(modes)]]
         for m in chosen:
             tasks.append((tid, tuple(sc), m, defaults, cfg_first))
@@ -712,7 +893,7 @@ def tasks_for(thorough, rng):
     n1 = 4 if thorough else 3
     k2 = list(combos(T["k2"], n1))
     for sc in k2:
-        add("k2", sc, ["R", "O"], all_modes=len(sc) <= 2)
+        add("k2", sc, ["R", "O"], all_modes=len(sc) <= 1)
     for sc in k2:
         kinds = {src_kind(s) for s, _ in sc}
         if len(sc) <= 3 and not kinds & {"D", "Dc"}:
@@ -720,7 +901,7 @@ def tasks_for(thorough, rng):
         if len(sc) <= 3 and kinds & {"C", "Cs"} and any(s == "A" and a[0] == "s" for s, a in sc):
             add("k2", sc, ["R", "O"], cfg_first=False)
     # ---- (2) one, three (and four) subcommands per level
-    for tid, n in (("k1", 3), ("k3", 2)) + ((("k4", 2), ("k3", 3)) if thorough else ()):
+    for tid, n in ((("k1", 3), ("k3", 2), ("k4", 2), ("k3", 3)) if thorough else (("k1", 2), ("k3", 2))):
         for sc in combos(T[tid], n):
             add(tid, sc, ["R", "O"])
     # three subcommands: settings for several subcommands from one source + a name from another (3-4 atoms)
@@ -739,10 +920,10 @@ def tasks_for(thorough, rng):
     n2 = 3 if thorough else 2
     for tid in ("d2", "rep") + (("d2s",) if thorough else ()):
         for sc in combos(T[tid], n2, unknown=(tid == "d2")):
-            add(tid, sc, ["RR", "OO", "RO", "OR"])
+            add(tid, sc, ["RR", "OO", "RO", "OR"] if thorough or len(sc) <= 1 else ["RR", "OO"], all_modes=(tid == "d2" and len(sc) <= 1))
             kinds = {src_kind(s) for s, _ in sc}
-            if tid == "d2" and sc and not kinds & {"D", "Dc"}:
-                add(tid, sc, ["RO", "OR", "RR", "OO"], defaults=False)
+            if tid == "d2" and sc and not kinds & {"D", "Dc"} and (thorough or kinds & {"B", "C", "Cs"}):
+                add(tid, sc, ["RR", "OO", "RO", "OR"] if thorough else ["RR", "OO"], defaults=False)
     # ---- (4) every depth-1 scenario replayed at inner positions of deeper trees
     k2_small = [sc for sc in k2 if 1 <= len(sc) <= 3 and not any(a[0] == "n" and a[2] == UNKNOWN for s, a in sc)]
     targets = [("d2", ("a",)), ("d2s", ("b",)), ("rep", ("a",)), ("d3", ("a", "x"))]
@@ -751,13 +932,14 @@ def tasks_for(thorough, rng):
     i = 0
     for tid, target in targets:
         for sc1 in k2_small:
-            for how in ("A", "B", "I"):
-                for own in (False, True):
-                    if own and not any(s == "D" for s, _ in sc1):
-                        continue
-                    i += 1
-                    if not thorough and len(sc1) == 3 and i % 3 != 0:
-                        continue  # quick: every third 3-atom lift, deterministic
+            for own in (False, True):
+                if own and not any(s == "D" for s, _ in sc1):
+                    continue
+                i += 1
+                if not thorough and len(sc1) == 3 and i % 4 != 0:
+                    continue  # quick: every fourth 3-atom lift, deterministic
+                # how the outer chain is selected: named on the command line / in the config / left implicit
+                for how in (("A", "B", "I") if thorough or len(sc1) == 1 else ("ABI"[i % 3],)):
                     sc = lift(T[tid], sc1, target, how, own)
                     if sc is None:
                         continue
@@ -779,52 +961,84 @@ def tasks_for(thorough, rng):
     return tasks, n1, n2
 
 
+WITNESSES_PER_SHAPE = 3
+
+
 def main():
     h = Harness("b17_subcommands", rule="every scenario = set of <= N (source, atom) pairs over a subcommand tree (atoms: set the option of the parser at "
                 "path P / name child C at path P; sources: root and sub-parser default config files, environment, parsed string/object, "
                 "--cfg at root or sub level, command line), run through parse_args / parse_string / parse_object / parse_env on parsers "
                 "with required and optional subcommands and compared with a reference selection+precedence model; non-trivial = distinct "
-                "(tree, required-mode, channel, defaults flag, scenario) with a non-empty scenario; violations are shrunk to a minimal "
-                "scenario, which is what the canonical key names")
+                "(tree, required-mode, channel, defaults flag, scenario) with a non-empty scenario; a violation is shrunk to a minimal "
+                "scenario; key = c17:<class>:<shape of the minimal scenario>:<tree>:<modes>:<channels>:<minimal scenario>:<detail>, at most "
+                "%d witnesses per (class, shape) get their own key, further ones are attributed to the first" % WITNESSES_PER_SHAPE)
     import multiprocessing
 
+    import time
+    t0 = time.time()
     tasks, n1, n2 = tasks_for(h.thorough, h.rng)
-    if h.only:
-        # replay: --only <substring of 'tree:mode:channel...:scenario'>, matched against the scenario part
-        tasks = [t for t in tasks if any(p in "%s:%s:x:%s" % (t[0], t[2], sig(trees()[t[0]], t[1])) for p in [h.only.split(":")[-1]])]
-    size = 200
-    chunks = [tasks[i:i + size] for i in range(0, len(tasks), size)]
+    t1 = time.time()
+    size = 100
     workers = max(1, min(16, os.cpu_count() or 1))
-    ctx = multiprocessing.get_context("fork")
-    with ctx.Pool(workers) as pool:
-        results = pool.map(work, chunks, chunksize=1)
     stats = {"accept": 0, "reject": 0, "env-ambiguous": 0, "stale-parser-only": 0}
-    fail_types = {}
+    fail_types, shapes = {}, {}
+    with tempfile.TemporaryDirectory() as tmp:
+        jobs = [(tmp, tasks[i:i + size]) for i in range(0, len(tasks), size)]
+        with multiprocessing.get_context("fork").Pool(workers) as pool:
+            results = pool.map(work, jobs, chunksize=1)
+    t2 = time.time()
+    assert_order = "--assert-order" in h.extra
+    groups, unasserted = {}, {}
     for recs in results:
         for rec in recs:
+            if h.only and h.only not in rec["orig"] and h.only not in rec.get("witness", ""):
+                continue
             stats["accept" if rec["res"] == "ok" else "reject"] += 1
             stats["env-ambiguous"] += rec["ambiguous"]
             stats["stale-parser-only"] += rec["stale"]
             if rec["fail"]:
                 fail_types[rec["fail"]] = fail_types.get(rec["fail"], 0) + 1
-            h.check(rec["ok"], rec.get("key", ""), rec.get("what", ""), rec.get("case"))
             if rec["nontrivial"]:
                 h.nontrivial(rec["orig"])
             if "sample" in rec:
                 h.sample(rec["sample"], limit=3)
-    h.note("tasks: %d in %d chunks on %d worker processes" % (len(tasks), len(chunks), workers))
+            if rec["ok"]:
+                h.check(True, "")
+                continue
+            book = groups if assert_order or not rec["cls"].startswith("order-") else unasserted
+            g = book.setdefault((rec["cls"], rec["shape"]), {"witnesses": [], "failing_evaluations": 0})
+            g["failing_evaluations"] += 1
+            if rec["witness"] not in g["witnesses"]:
+                g["witnesses"].append(rec["witness"])
+            if book is unasserted:
+                # compatible with the statement when it is read without any override order between config / environment /
+                # default-config sources: reported in the notes, not asserted (README rule 1); --assert-order asserts it
+                h.check(True, "")
+                continue
+            w = rec["witness"] if g["witnesses"].index(rec["witness"]) < WITNESSES_PER_SHAPE else g["witnesses"][0]
+            h.check(False, "c17:%s:%s:%s" % (rec["cls"], rec["shape"], w), rec["what"], rec["case"])
+    h.note("tasks: %d in %d jobs on %d worker processes; seconds: enumerate %.1f, run %.1f" % (len(tasks), len(jobs), workers, t1 - t0, t2 - t1))
     h.note("outcomes: %r" % stats)
     h.note("failure types seen (any exception counts as 'parsing fails' for C17; non-ArgumentError ones are C03 material): %r" % fail_types)
-    h.note("distinct violation keys: %d (the evidence lists at most 200)" % len(h.viol_keys))
+    h.note("violations by (class, shape): " + "; ".join(
+        "%s:%s -> %d failing evaluations, %d minimal witnesses" % (k[0], k[1], v["failing_evaluations"], len(v["witnesses"]))
+        for k, v in sorted(groups.items())))
+    h.note("NOT asserted - differs from the documented override order (DOCUMENTATION.rst 'Override order') but compatible with the statement "
+           "read without an order between config / environment / default-config sources: " + "; ".join(
+               "%s:%s -> %d evaluations, e.g. %s" % (k[0], k[1], v["failing_evaluations"], v["witnesses"][0]) for k, v in sorted(unasserted.items())))
     for i, a in enumerate(h.extra):
         if a == "--dump-keys" and i + 1 < len(h.extra):
             with open(h.extra[i + 1], "w") as f:
-                f.write("\n".join(sorted(h.viol_keys)) + "\n")
-    h.check(stats["accept"] > 0 and stats["reject"] > 0, "c17:vacuity", "accepted and rejected inputs must both occur", stats)
+                for book in (groups, unasserted):
+                    for k, v in sorted(book.items()):
+                        for w in v["witnesses"]:
+                            f.write("c17:%s:%s:%s\n" % (k[0], k[1], w))
+    if not h.only:
+        h.check(stats["accept"] > 0 and stats["reject"] > 0, "c17:vacuity", "accepted and rejected inputs must both occur", stats)
     sys.exit(h.finish(exhaustive=True, bound=(
         "trees: 1-3 (thorough 4) subcommands at depth 1, depth 2 (incl. equal names in two branches and repeated names a.a.a), depth 3 via lifted "
-        "scenarios (thorough: + random); scenarios: all with <= %d atoms on root[a,b], <= %d on depth-2 trees, <= 2-3 on k1/k3, every <=3-atom "
-        "depth-1 scenario lifted to inner nodes (quick: every third 3-atom one); required/optional per level; defaults on/off" % (n1, n2))))
+        "scenarios (thorough: + random); scenarios: all with <= %d atoms on root[a,b], <= %d on depth-2 trees, <= 2 (thorough 3) on 1/3/4 subcommands, every <=3-atom "
+        "depth-1 scenario lifted to inner nodes of depth-2/3 trees (quick: every fourth 3-atom one, one of three outer-selection styles); required/optional per level; defaults on/off" % (n1, n2))))
 
 
 if __name__ == "__main__":
